@@ -625,6 +625,7 @@ def c15(tier, rep):
     else:
         runs = [(["c15", "std", 6, "join,try_join"], "21 symbols, length<=6, join/try_join"), (["c15", "full", 4, ALL8], "32 symbols, length<=4, 8 configs"), (["c15", "opts", 8, "join,try_join_async"], "4 options + x |> , then, length<=8")]
     runs.append((["c15", "lets", ALL8], "depth profiles n<=3,d<=3 x every assignment of {none, let, let mut, let ref} to the branches x handler x 8 configs"))
+    runs.append((["c15", "mid", ALL8], "every operator (plain, ~, wrapper opener, <<<) in front of each separating comma of ^@ / ?^@ / typed <-> x 4 continuations x 8 configs: rejected"))
     classes = {}
     for args, label in runs:
         d = e1_mode(rep, exe, args, "C15", "totality")
